@@ -38,7 +38,7 @@ for p in props:
 
 manifest = {
     'version': 1,
-    'setup_cmd': 'cd lean && lake build',
+    'setup_cmd': './setup.sh',
     'hooks': {
         'guard': 'MORPH_KGC_VERIF',
         'enable': 'no source hooks: every seam is reached from outside (private functions in-process, CLI via subprocess/strace)',
